@@ -20,9 +20,15 @@ import (
 	gossipv1 "github.com/alephium/wormhole-fork/node/pkg/proto/gossip/v1"
 )
 
-const c17PostTimeout = 3 * time.Second
+const c17PostTimeout = 10 * time.Second
+
+// after two blocked calls the remaining ones are not attempted (each would cost the full timeout)
+var c17PostBlocked int
 
 func c17Post(ch chan *gossipv1.ObservationRequest, req *gossipv1.ObservationRequest) string {
+	if c17PostBlocked >= 2 {
+		return "skipped"
+	}
 	resC := make(chan string, 1)
 	go func() {
 		defer func() {
@@ -46,6 +52,7 @@ func c17Post(ch chan *gossipv1.ObservationRequest, req *gossipv1.ObservationRequ
 	case r := <-resC:
 		return r
 	case <-t.C:
+		c17PostBlocked++
 		return "blocked"
 	}
 }
@@ -72,6 +79,9 @@ func TestVerifC17Post(t *testing.T) {
 		}
 		req := &gossipv1.ObservationRequest{ChainId: 1, TxHash: []byte{1}}
 		res := c17Post(ch, req)
+		if res == "skipped" {
+			return
+		}
 		n++
 		fmt.Fprintf(w, "post p%d cap=%d fill=%d res=%s len=%d\n", n, k, j, res, len(ch))
 		if res == "ok" { // the posted request is the last item of the queue
@@ -105,12 +115,18 @@ func TestVerifC17Post(t *testing.T) {
 		for i := 0; i < k+3; i++ {
 			before := len(ch)
 			res := c17Post(ch, &gossipv1.ObservationRequest{ChainId: uint32(i)})
+			if res == "skipped" {
+				break
+			}
 			n++
 			fmt.Fprintf(w, "post p%d cap=%d fill=%d res=%s len=%d\n", n, k, before, res, len(ch))
 		}
 		<-ch
 		before := len(ch)
 		res := c17Post(ch, &gossipv1.ObservationRequest{ChainId: 7})
+		if res == "skipped" {
+			continue
+		}
 		n++
 		fmt.Fprintf(w, "post p%d cap=%d fill=%d res=%s len=%d\n", n, k, before, res, len(ch))
 	}
